@@ -543,3 +543,221 @@ Proof.
   - intros c. destruct (inv_conn _ I c) as (K1 & K2 & K3 & K4 & K5).
     unfold conn_ok; cbn. destruct (f_inconns (fl (conns s c))); cbn; repeat split; auto; apply K5; auto.
 Qed.
+
+Ltac cstep I st := apply (inv_caller_step st); cbn; auto; [apply (inv_nopanic _ I) | ].
+Ltac eother I st e0 := apply (exch_ok_frame st); cbn; auto; [frame_tac | apply (inv_exch _ I)].
+
+Lemma pres_start s b s' : Inv s -> st_start s b = Some s' -> Inv s'.
+Proof.
+  intros I. unfold st_start. intros H; inversion H; subst s'; clear H. cstep I s.
+  intros e. destruct (Nat.eq_dec e (nexch s)) as [->|N]; [|eother I s e].
+  unfold exch_ok; cbn. rewrite upd_same; cbn. repeat split; intros; discriminate.
+Qed.
+
+Lemma pres_cancel s e s' : Inv s -> st_cancel s e = Some s' -> Inv s'.
+Proof.
+  intros I. unfold st_cancel. destruct (e <? nexch s); try discriminate.
+  intros H; inversion H; subst s'; clear H. cstep I s.
+  intros e0. destruct (Nat.eq_dec e0 e) as [->|N]; [|eother I s e0].
+  pose proof (inv_exch _ I e) as X. unfold exch_ok in *; cbn. rewrite upd_same; cbn. exact X.
+Qed.
+
+Lemma pres_ctxdone s e s' : Inv s -> st_ctxdone s e = Some s' -> Inv s'.
+Proof.
+  intros I. unfold st_ctxdone. destruct (x_cancel (exchs s e)); try discriminate.
+  destruct (x_pc (exchs s e)) eqn:Ep; try discriminate;
+  intros H; inversion H; subst s'; clear H; cstep I s;
+  intros e0; (destruct (Nat.eq_dec e0 e) as [->|N]; [|eother I s e0]);
+  unfold exch_ok; cbn; rewrite upd_same; cbn; repeat split; intros; discriminate.
+Qed.
+
+Lemma pres_recv s e s' : Inv s -> st_recv s e = Some s' -> Inv s'.
+Proof.
+  intros I. unfold st_recv. destruct (x_pc (exchs s e)) eqn:Ep; try discriminate.
+  destruct (inv_exch _ I e) as (X1 & X2 & X3). destruct (X2 w isnew Ep) as [Hw Hx].
+  destruct (inv_work _ I w) as (_ & _ & _ & _ & W5 & _).
+  destruct (w_sent (works s w)) as [[q|]|] eqn:Es; try discriminate.
+  - intros H; inversion H; subst s'; clear H; cstep I s.
+    intros e0; (destruct (Nat.eq_dec e0 e) as [->|N]; [|eother I s e0]).
+    unfold exch_ok; cbn; rewrite upd_same; cbn; repeat split; intros; try discriminate.
+    inversion H; subst. rewrite (W5 q0 eq_refl). auto.
+  - destruct (negb isnew && (x_retry (exchs s e) <=? 5) && negb (x_cancel (exchs s e)));
+    intros H; inversion H; subst s'; clear H; cstep I s;
+    intros e0; (destruct (Nat.eq_dec e0 e) as [->|N]; [|eother I s e0]);
+    unfold exch_ok; cbn; rewrite upd_same; cbn; repeat split; intros; discriminate.
+Qed.
+
+(* D: goroutine w (owning nothing, possibly a fresh slot) takes connection c that nobody owns *)
+Lemma inv_acquire s s' w c :
+  Inv s -> held (w_pc (works s w)) = None -> (forall w0, held (w_pc (works s w0)) <> Some c) ->
+  panicked s' = false -> nconn s <= nconn s' -> nwork s <= nwork s' ->
+  (forall c0, c0 <> c -> conns s' c0 = conns s c0) ->
+  (forall w0, w0 <> w -> works s' w0 = works s w0) ->
+  (forall e, exchs s' e = exchs s e) ->
+  (w < nwork s -> w_exch (works s' w) = w_exch (works s w)) ->
+  (held (w_pc (works s' w)) = Some c \/ held (w_pc (works s' w)) = None) ->
+  conn_ok s' c -> work_ok s' w -> Inv s'.
+Proof.
+  intros I Hh Hno Hp Hnc Hnw Hc Hw He Hx Hh' Cok Wok. split; auto.
+  - intros c0. destruct (Nat.eq_dec c0 c) as [->|Ne]; auto.
+    apply conn_ok_frame with s; [auto| |apply (inv_conn _ I)].
+    intros w0 P. destruct (Nat.eq_dec w0 w) as [->|Nw]; auto.
+    rewrite P in Hh. discriminate.
+  - intros w0. destruct (Nat.eq_dec w0 w) as [->|Nw]; auto.
+    apply work_ok_frame with s; [auto|lia|lia| |apply (inv_work _ I)].
+    intros c1 H1. destruct (Nat.eq_dec c1 c) as [->|Ne].
+    + exfalso. apply (Hno w0); auto.
+    + rewrite Hc; auto. apply view_refl.
+  - intros w1 w2 c1 H1 H2.
+    destruct (Nat.eq_dec w1 w) as [->|N1]; destruct (Nat.eq_dec w2 w) as [->|N2]; auto.
+    + rewrite Hw in H2 by auto. destruct Hh' as [Hh'|Hh']; rewrite Hh' in H1; [|discriminate].
+      inversion H1; subst c1. exfalso. apply (Hno w2); auto.
+    + rewrite Hw in H1 by auto. destruct Hh' as [Hh'|Hh']; rewrite Hh' in H2; [|discriminate].
+      inversion H2; subst c1. exfalso. apply (Hno w1); auto.
+    + rewrite Hw in H1, H2 by auto. apply (inv_uniq _ I w1 w2 c1); auto.
+  - intros e. apply exch_ok_frame with s; [auto|lia| |apply (inv_exch _ I)].
+    intros w0 Hlt. destruct (Nat.eq_dec w0 w) as [->|Nw]; auto. rewrite Hw; auto.
+Qed.
+
+Lemma fresh_pc s w : Inv s -> nwork s <= w -> w_pc (works s w) = WNone.
+Proof. intros I H. destruct (inv_work _ I w) as (_&_&_&_&_&W6). auto. Qed.
+
+Lemma idle_unowned s c : Inv s -> f_inidle (fl (conns s c)) = true -> forall w0, held (w_pc (works s w0)) <> Some c.
+Proof.
+  intros I Hi w0 Hh. destruct (inv_work _ I w0) as (W1&_). destruct (W1 c Hh) as (_ & B & _). congruence.
+Qed.
+
+Lemma new_unowned s c : Inv s -> nconn s <= c -> forall w0, held (w_pc (works s w0)) <> Some c.
+Proof.
+  intros I Hi w0 Hh. destruct (inv_work _ I w0) as (W1&_). destruct (W1 c Hh) as (A & _). lia.
+Qed.
+
+Lemma pres_getnone s e s' : Inv s -> st_getnone s e = Some s' -> Inv s'.
+Proof.
+  intros I. unfold st_getnone. destruct (x_pc (exchs s e)) eqn:Ep; try discriminate.
+  destruct (t_closed s).
+  - intros H; inversion H; subst s'; clear H; cstep I s.
+    intros e0; (destruct (Nat.eq_dec e0 e) as [->|N]; [|eother I s e0]).
+    unfold exch_ok; cbn; rewrite upd_same; cbn; repeat split; intros; discriminate.
+  - destruct (no_idle s); try discriminate. intros H; inversion H; subst s'; clear H.
+    set (w := nwork s).
+    set (s1 := mkState false (nconn s) (conns s) (nexch s) (exchs s) (S w)
+                       (upd (works s) w (mkWork e DDial None)) (panicked s)).
+    assert (Inv s1) as I1.
+    { apply inv_acquire with (s := s) (w := w) (c := nconn s); cbn; auto.
+      - rewrite fresh_pc; auto.
+      - apply new_unowned; auto.
+      - apply (inv_nopanic _ I).
+      - frame_tac.
+      - unfold w; lia.
+      - rewrite upd_same; auto.
+      - apply conn_ok_frame with s; cbn; auto; [|apply (inv_conn _ I)].
+        intros w0 P. apply upd_other. intros ->. rewrite fresh_pc in P; auto. discriminate.
+      - unfold work_ok; cbn. rewrite upd_same; cbn. repeat split; intros; pcinv. unfold w in *; lia. }
+    change (Inv (set_exch s1 e (set_xpc (exchs s e) (CDialWait w)))).  
+    cstep I1 s1.
+    intros e0; (destruct (Nat.eq_dec e0 e) as [->|N]; [|eother I1 s1 e0]).
+    unfold exch_ok; cbn; rewrite !upd_same; cbn; repeat split; intros; try discriminate;
+      inversion H; subst; auto; rewrite upd_same; auto.
+Qed.
+
+Lemma pres_dialdeliver s w s' : Inv s -> st_dialdeliver s w = Some s' -> Inv s'.
+Proof.
+  intros I. unfold st_dialdeliver. destruct (w_pc (works s w)) eqn:Ep; try discriminate.
+  set (e := w_exch (works s w)).
+  destruct (x_pc (exchs s e)) eqn:Ex; try discriminate.
+  destruct (Nat.eqb w0 w) eqn:Ew; try discriminate. apply Nat.eqb_eq in Ew. subst w0.
+  destruct (inv_exch _ I e) as (X1 & X2 & X3). destruct (X1 w Ex) as [Hw Hx].
+  wstart I w.
+  destruct oc as [c|]; intros H; inversion H; subst s'; clear H.
+  - set (s1 := set_work s w (set_pc (works s w) (WWrite c))).
+    assert (Inv s1) as I1.
+    { destruct (W1 c eq_refl) as (Hc & Hidle & Hhard & _). destruct (Hhard eq_refl) as [Hserv Hncl].
+      assert (cleanc (conns s c)) as Hcl by (apply W2; auto).
+      apply inv_worker_step with (s := s) (w := w) (c := c); cbn; rewrite ?upd_same; cbn; auto.
+      + rewrite Ep; reflexivity.
+      + apply (inv_nopanic _ I).
+      + frame_tac.
+      + apply conn_ok_pc with (s := s) (w := w); cbn; auto. frame_tac. rewrite Ep; discriminate. apply (inv_conn _ I).
+      + wok. }
+    cstep I1 s1.
+    intros e0; (destruct (Nat.eq_dec e0 e) as [->|N]; [|eother I1 s1 e0]).
+    unfold exch_ok; cbn; rewrite !upd_same; cbn; repeat split; intros; try discriminate;
+      inversion H; subst; auto; rewrite upd_same; auto.
+  - set (s1 := set_work s w (set_pc (works s w) WNone)).
+    assert (Inv s1) as I1.
+    { apply inv_free_step with (s := s) (w := w); cbn; rewrite ?upd_same; cbn; auto.
+      + rewrite Ep; reflexivity.
+      + apply (inv_nopanic _ I).
+      + frame_tac.
+      + intros; apply view_refl.
+      + intros c0. apply conn_ok_pc with (s := s) (w := w); cbn; auto. frame_tac. rewrite Ep; discriminate. apply (inv_conn _ I).
+      + wok. }
+    cstep I1 s1.
+    intros e0; (destruct (Nat.eq_dec e0 e) as [->|N]; [|eother I1 s1 e0]).
+    unfold exch_ok; cbn; rewrite !upd_same; cbn; repeat split; intros; discriminate.
+Qed.
+
+Lemma pres_dialok s w s' : Inv s -> st_dialok s w = Some s' -> Inv s'.
+Proof.
+  intros I. unfold st_dialok. destruct (w_pc (works s w)) eqn:Ep; try discriminate.
+  wstart I w.
+  destruct (t_closed s); intros H; inversion H; subst s'; clear H;
+  (apply inv_acquire with (s := s) (w := w) (c := nconn s); cbn; rewrite ?upd_same; cbn; auto).
+  all: try (rewrite Ep; reflexivity).
+  all: try (apply new_unowned; auto).
+  all: try (apply (inv_nopanic _ I)).
+  all: try solve [frame_tac].
+  all: try solve [wok].
+  all: cok; repeat split; auto; try lia; try discriminate; left; repeat split; reflexivity.
+Qed.
+
+Lemma pres_getidle s e c s' : Inv s -> st_getidle s e c = Some s' -> Inv s'.
+Proof.
+  intros I. unfold st_getidle. destruct (x_pc (exchs s e)) eqn:Ex; try discriminate.
+  destruct (t_closed s) eqn:Et; try discriminate.
+  destruct (c <? nconn s) eqn:Hlt; try discriminate. apply Nat.ltb_lt in Hlt.
+  destruct (f_inidle (fl (conns s c))) eqn:Ei; try discriminate. cbn.
+  destruct (inv_conn _ I c) as (K1 & K2 & K3 & K4 & K5). destruct (K5 Ei) as [Hserv Hcl].
+  pose proof (idle_unowned s c I Ei) as Hno.
+  pose proof (fresh_pc s (nwork s) I (le_n _)) as Hfresh.
+  unfold cleanc in Hcl. rewrite Hserv.
+  destruct (f_closed (fl (conns s c))) eqn:Ec; [|destruct (f_sock (fl (conns s c))) eqn:Ek];
+  intros H; inversion H; subst s'; clear H.
+  - dconn s c. destruct Hcl as (C1 & C2 & C3 & C4 & C5 & C6). subst.
+    apply inv_acquire with (s := s) (w := nwork s) (c := c); cbn; auto.
+    all: try (rewrite Hfresh; reflexivity).
+    all: try (apply (inv_nopanic _ I)).
+    all: try solve [frame_tac].
+    all: try solve [apply work_ok_frame with s; cbn; auto; [rewrite Hfresh; discriminate | apply (inv_work _ I)]].
+    all: try solve [right; rewrite Hfresh; reflexivity].
+    all: cok; repeat split; auto; try lia; try discriminate; left; repeat split; reflexivity.
+  - dconn s c. destruct Hcl as (C1 & C2 & C3 & C4 & C5 & C6). subst.
+    apply inv_acquire with (s := s) (w := nwork s) (c := c); cbn; auto.
+    all: try (rewrite Hfresh; reflexivity).
+    all: try (apply (inv_nopanic _ I)).
+    all: try solve [frame_tac].
+    all: try solve [apply work_ok_frame with s; cbn; auto; [rewrite Hfresh; discriminate | apply (inv_work _ I)]].
+    all: try solve [right; rewrite Hfresh; reflexivity].
+    all: cok; repeat split; auto; try lia; try discriminate; left; repeat split; reflexivity.
+  - set (w := nwork s).
+    set (s1 := mkState (t_closed s) (nconn s)
+                 (upd (conns s) c (mkConn (mkFl true false false false false (f_inconns (fl (conns s c))))
+                                          (io (conns s c)) (srv (conns s c)) (Some e)))
+                 (nexch s) (exchs s) (S w) (upd (works s) w (mkWork e (WWrite c) None)) (panicked s)).
+    assert (Inv s1) as I1.
+    { dconn s c. destruct Hcl as (C1 & C2 & C3 & C4 & C5 & C6). subst.
+      apply inv_acquire with (s := s) (w := w) (c := c); cbn; rewrite ?upd_same; cbn; auto.
+      all: try (rewrite Hfresh; reflexivity).
+      all: try (apply (inv_nopanic _ I)).
+      all: try solve [frame_tac].
+      all: try solve [unfold w; lia].
+      all: try solve [wok; unfold w in *; lia].
+      all: try solve [unfold w; rewrite Hfresh; reflexivity].
+      all: unfold s1; cok; repeat split; auto; try lia; try discriminate; left; repeat split; reflexivity. }
+    change (Inv (set_exch s1 e (set_xpc (exchs s e) (CWait w false)))).
+    cstep I1 s1.
+    intros e0; (destruct (Nat.eq_dec e0 e) as [->|N]; [|eother I1 s1 e0]).
+    unfold exch_ok; cbn; rewrite !upd_same; cbn; repeat split; intros; try discriminate;
+      inversion H; subst; auto; rewrite upd_same; auto.
+Qed.
